@@ -1,8 +1,10 @@
 //! vh — conformance harness binding the TLA+ specifications in /verif/spec to the real
 //! gm-quic code.  Sub-commands replay TLC-generated behaviours into real objects and record
 //! NDJSON traces that the Trace_*.tla specifications validate.
+mod rcvdjournal;
 mod recvbuf;
 mod sendbuf;
+mod sentjournal;
 mod util;
 
 fn main() {
@@ -15,6 +17,9 @@ fn main() {
     let code = match args[1].as_str() {
         "sendbuf-replay" => sendbuf::replay(rest),
         "sendbuf-random" => sendbuf::random(rest),
+        "sentjournal-replay" => sentjournal::replay(rest),
+        "rcvdjournal-replay" => rcvdjournal::replay(rest),
+        "rcvdjournal-random" => rcvdjournal::random(rest),
         "recvbuf-replay" => recvbuf::replay(rest),
         "recvbuf-random" => recvbuf::random(rest),
         other => {
